@@ -24,10 +24,12 @@ import (
 
 var checks = map[string]func(*Run) error{
 	"C13": checkC13,
+	"C19": checkC19,
 }
 
 var replays = map[string]func(*Run, *Violation) (bool, string, error){
 	"C13": replayC13,
+	"C19": replayC19,
 }
 
 var quickBudget = map[string]int{"C13": 45, "C14": 45, "C17": 45, "C19": 45}
